@@ -100,6 +100,13 @@ DfPut(ty, tg, len, k) ==
           ELSE anns' = [anns EXCEPT ![idx[1]].len = len, ![idx[1]].k = k]
     /\ Log("DfPut", [type |-> ty, target |-> tg, len |-> len, k |-> k], [ret |-> 0])
     /\ wc' = wc + 1 /\ UNCHANGED st
+\* the single-file interface used on ANOTHER file in between (the interface keeps, per process, the name of the last file
+\* and directories of that file's labels and descriptions): DFANputlabel / DFANputdesc for the same kind of target on a
+\* second file, read back from there at once.  It must work there, and nothing of this file changes.
+DfOther(ty, tg, len, k) ==
+    /\ st = "df" /\ IsObj(ty) /\ tg \in Targets
+    /\ Log("DfOther", [type |-> ty, target |-> tg, len |-> len, k |-> k], [ret |-> 0, back |-> TRUE])
+    /\ wc' = wc + 1 /\ UNCHANGED <<st, anns>>
 \* DFANaddfid / DFANaddfds: always a new file annotation
 DfAddFile(ty, len, k) ==
     /\ st = "df" /\ ~IsObj(ty) /\ Len(anns) < MaxAnns
@@ -128,6 +135,7 @@ Next == \/ Setup \/ FileInfo \/ ToDF \/ ToAN
         \/ \E ty \in Types, tg \in Targets : AnnList(ty, tg) \/ DfGet(ty, tg)
         \/ \E ty \in Types, tg \in Targets, len \in LabLens \cup DescLens : len \in Lens(ty) /\ DfPut(ty, tg, len, K)
         \/ \E ty \in Types, len \in LabLens \cup DescLens : len \in Lens(ty) /\ DfAddFile(ty, len, K)
+        \/ \E ty \in Types, tg \in Targets, len \in LabLens \cup DescLens : len \in Lens(ty) /\ DfOther(ty, tg, len, K)
 Spec == Init /\ [][Next]_vars
 
 ---------------------------------------------------------------------------
